@@ -73,6 +73,32 @@ def run(tier, seed, replay):
     rs = [i for i, r in enumerate(orows) if r.get("ev") == "wr.end" and r.get("kind") == "resp" and r.get("outcome") == "ok" and r.get("ref")]
     mutate("second-response-for-one-request", lambda rr: rr.insert(rs[0] + 1, dict(rr[rs[0]])), want_strict_reject=True, want_monfail="C02.AnsweredAtMostOnce")
 
+    # ---- snapshot-level monitor (the one evaluated over the repository's own tests)
+    snap, tid = [], "t0"
+    for r in orows:
+        if r.get("ev") == "reset":
+            tid = r.get("trace", "t")
+        elif r.get("ev") == "cs":
+            snap.append({"c": tid, "fn": r["fn"], "s": r["s"]})
+    def snapfails(rr, name):
+        p = os.path.join(out, name + ".ndjson")
+        vlib.write_ndjson(p, rr)
+        return [x["monfail"] for x in vlib.run_monitor("ConnSnap", "ConnSnap.cfg", p)[0]]
+    expect("ConnSnap raises nothing (not even drift) on the unmodified critical sections", not snapfails(snap, "snap-base"))
+    rr = copy.deepcopy(snap)
+    k = [i for i, r in enumerate(rr) if r["s"]["closing"] and not r["s"]["done"] and i + 1 < len(rr) and rr[i + 1]["c"] == r["c"]][0]
+    rr[k + 1]["s"]["queue"] += 1
+    rr[k + 1]["s"]["incoming"] += 1
+    expect("ConnSnap reports C05.NothingEnqueuedAfterClose on a queue that grows after Close", "C05.NothingEnqueuedAfterClose" in snapfails(rr, "snap-enq"))
+    rr = copy.deepcopy(snap)
+    k = [i for i, r in enumerate(rr) if r["s"]["done"]][0]
+    rr[k]["s"]["out"] = 1
+    expect("ConnSnap reports C05.IdleWhenDone on a connection that is done with a call in flight", "C05.IdleWhenDone" in snapfails(rr, "snap-done"))
+    rr = copy.deepcopy(snap)
+    k = [i for i, r in enumerate(rr) if r["fn"].endswith("handleAsync")][0]
+    rr.pop(k)
+    expect("ConnSnap reports drift when one critical section is dropped", "drift" in snapfails(rr, "snap-drop"))
+
     # ---- event store
     import importlib
     c20 = importlib.import_module("checks.c20")
